@@ -48,6 +48,9 @@ def regenerate():
 def build_harness(race=False):
     out = HARNESS_BIN + ("_race" if race else "")
     src = os.path.join(VERIF, "harness")
+    with open(os.path.join(src, "go.mod"), "w") as f:
+        f.write("module algobra-verif/harness\n\ngo 1.23\n\nrequire github.com/ReneBoedker/algobra v0.0.0\n\n"
+                "replace github.com/ReneBoedker/algobra => %s\n" % REPO)
     gosum = os.path.join(REPO, "go.sum")
     if os.path.exists(gosum):
         shutil.copy(gosum, os.path.join(src, "go.sum"))
